@@ -227,6 +227,15 @@ def run_case(c, stats):
         fa2 = gfa.build(gfa.random_case(__import__("random").Random(len(str(c)) + 1), max_states=3, max_syms=2,
                                         kinds=("nfa", "enfa"), vcs=["int"], token=True))
         call(res.intersection, fa2)
+    if R["kind"] == "fa" and R["fa"]["kind"] != "dfa" and len(str(c)) % 3 == 0:
+        # the automaton operand (used above) gets one more start state and is used again
+        sts = sorted(arg.states, key=lambda x: repr(x.value))
+        extra = [x for x in sts if x not in arg.start_states]
+        if extra:
+            call(arg.add_start_state, extra[-1])
+            stats.cls("operand_start_added")
+            call(obj.intersection, arg)
+            call(lambda: obj & arg)
     if R["kind"] == "fa" and R["fa"].get("edits"):
         # the automaton operand is edited through its public mutators (transitions removed, too) and used again
         gfa.apply_edits(arg, R["fa"])
